@@ -206,7 +206,8 @@ SF(w) == [op |-> "set", s |-> 1, which |-> w]
 (* one object: every combination of the three result-selecting flags, a parse, every flag read back through its setter, another parse *)
 SG(w) == [op |-> "get", s |-> 1, which |-> w]       \* read a flag back: the setter called with 1 returns the previous value
 ScriptFlags == <<SA("create", 1), SF("one"), SF("cost"), SF("rec"), SA("define", 1), SA("parse", 1), SG("one"), SG("cost"), SG("rec"), SA("parse", 1)>>
-ScriptStep(script) ==
+ScriptDefsBad == {1, 3, 4, 5, 8, 10}      \* with definitions that fail while terminals (4), rules (5) or translations (8) are read
+ScriptStep(script, defs) ==
   LET i == Len(hist) + 1 IN
   /\ i <= Len(script)
   /\ LET e == script[i] IN
@@ -214,16 +215,16 @@ ScriptStep(script) ==
        \/ e.op = "free" /\ Free(e.s)
        \/ e.op = "set" /\ \E v \in {0, 1, 2} : SetFlag(e.s, e.which, v)      \* 2: any non-zero value means "on" and is handed back as it is
        \/ e.op = "get" /\ SetFlag(e.s, e.which, 1)
-       \/ e.op = "define" /\ \E d \in ScriptDefs : Define(e.s, d, FALSE, FALSE)
+       \/ e.op = "define" /\ \E d \in defs : Define(e.s, d, FALSE, FALSE)
        \/ e.op = "parse" /\ \E w \in ScriptInputs : Parse(e.s, w, "ff")
 ScriptFinish(script) ==
   /\ Len(hist) = Len(script)
   /\ PrintT(<<"VEC", ToJson([hist |-> hist])>>)
   /\ hist' = Append(hist, [op |-> "end", s |-> 0])
   /\ UNCHANGED <<obj, faults>>
-SpecTwo == Init /\ [][ScriptStep(ScriptTwo) \/ ScriptFinish(ScriptTwo)]_<<obj, hist, faults>>
-SpecOne == Init /\ [][ScriptStep(ScriptOne) \/ ScriptFinish(ScriptOne)]_<<obj, hist, faults>>
-SpecFlags == Init /\ [][ScriptStep(ScriptFlags) \/ ScriptFinish(ScriptFlags)]_<<obj, hist, faults>>
+SpecTwo == Init /\ [][ScriptStep(ScriptTwo, ScriptDefs) \/ ScriptFinish(ScriptTwo)]_<<obj, hist, faults>>
+SpecOne == Init /\ [][ScriptStep(ScriptOne, ScriptDefsBad) \/ ScriptFinish(ScriptOne)]_<<obj, hist, faults>>
+SpecFlags == Init /\ [][ScriptStep(ScriptFlags, ScriptDefs) \/ ScriptFinish(ScriptFlags)]_<<obj, hist, faults>>
 
 (* ---------- invariants of the machine ---------- *)
 TypeOK == \A s \in Slots : obj[s].life \in {"dead", "undef", "ok", "faulted"} /\ obj[s].la \in 0..2
